@@ -233,6 +233,30 @@ pub fn gen_c04(o: &mut Out, tier: &str, sd: u64) {
                 let mut c = s64.ctx(); c[256] = 32;
                 mprove(o, &mut r, "ctx.bitlen-declared-below", "R", w, &c, &bl64, &b64, &s64.opens, "-");
             }
+            // unused slots that are not all zero, under a proof that is genuine for the context bytes as given: one dirty
+            // byte, and several whose xor / sum / and is zero (a check folding the tail into one value misses those)
+            {
+                let blu: Vec<usize> = vec![w / 2, w / 2].into_iter().flat_map(|x| if x > 64 { vec![64; x / 64] } else { vec![x] }).collect();
+                let su = statement(&mut r, &blu);
+                let bu = format!("bits:{}", join(&su.amounts));
+                let m = blu.len();
+                let tails: Vec<Vec<u8>> = vec![vec![7], vec![7, 7], vec![0, 0x21, 0, 0x03, 0, 0x22], vec![0x80, 0x80], vec![1, 255], vec![0xff, 0xff, 0xff, 0xff], vec![0x55, 0xaa], vec![0, 0, 0, 9]];
+                for t in tails {
+                    if m + t.len() > 8 { continue; }
+                    let mut c = su.ctx();
+                    for (i, v) in t.iter().enumerate() { c[256 + m + i] = *v; }
+                    mprove(o, &mut r, "ctx.unused-bitlen-dirty", "R", w, &c, &blu, &bu, &su.opens, "-");
+                }
+                // the same for the unused commitment slots: two equal non-zero slots, complementary slots
+                let fill = r.bytes(32);
+                for (a, b) in [(fill.clone(), fill.clone()), (fill.clone(), fill.iter().map(|x| !x).collect::<Vec<u8>>())] {
+                    if m + 2 > 8 { continue; }
+                    let mut c = su.ctx();
+                    c[32 * m..32 * m + 32].copy_from_slice(&a);
+                    c[32 * (m + 1)..32 * (m + 1) + 32].copy_from_slice(&b);
+                    mprove(o, &mut r, "ctx.unused-commitment-dirty", "R", w, &c, &blu, &bu, &su.opens, "-");
+                }
+            }
             // sum of bit lengths != width: a valid 64-bit context/proof sent to the wrong instruction is a length error;
             // here the bit lengths are altered under an otherwise honest proof (compare only)
             let mut c = st.ctx(); c[256] = c[256].wrapping_add(1);
